@@ -175,6 +175,7 @@ def check(repo, run, tier):
     g(r3, repo, run)
     g(r4, repo, run)
     g(unitrules.config_entry, repo, run, 'C14.R5')
+    g(unitrules.tag_spec, repo, run, 'C14.R2', ['!required'])
     g.done()
 
 
